@@ -146,6 +146,7 @@ type Resp struct {
 	Raw      string        `json:"raw,omitempty"`
 	Fault    *Fault        `json:"fault,omitempty"`
 	Gate     bool          `json:"gate,omitempty"` // send chunk k+1 only after the client has read chunk k
+	GateMark bool          `json:"gate_mark,omitempty"` // with Gate: progress = the client has seen the previous chunk's Mark (translated streams: byte counts differ)
 	Tag      string        `json:"tag,omitempty"`  // body cell tag (distinguishable bodies)
 }
 
@@ -155,6 +156,7 @@ type Chunk struct {
 	N     int           `json:"n,omitempty"`
 	Data  string        `json:"data,omitempty"`
 	B64   string        `json:"b64,omitempty"` // arbitrary bytes (wins over Data)
+	Mark  string        `json:"mark,omitempty"` // text the client must have seen (in whatever dialect) before the next chunk is sent, when gating by marks
 }
 
 // Fault is injected at a protocol point of one exchange.
